@@ -504,7 +504,7 @@ def work(args):
 #   vp, vp-t       VP(V(lemma)) with the options on the VP / only the tense on the VP — realized three times
 #   s, root        S(Pro, VP(V)).t(t) and root(V, subj(Pro)).t(t), pronoun subject — realized three times
 # vp/s/root inherit the tense from the enclosing phrase; they are restricted to verbs that are not essentially
-# reflexive, tenses other than the imperative, and forms that exist (no warning), so that agreement and pronoun
+# reflexive, tenses other than the imperative, and forms that exist and are not empty (no warning), so that agreement and pronoun
 # placement stay trivially known.
 
 VARIANTS = ["strpe", "lang-explicit", "lang-switch", "vp", "vp-t", "s", "root"]
@@ -650,8 +650,8 @@ def variant_lines(ctx, D, pairs):
                     if t == "ip":
                         continue
                     sp = spec_en(D, lemma, entry, t, pe, n) if lang == "en" else spec_fr(D, lemma, entry, t, pe, n, g, aux)
-                    if sp is None or sp.w:
-                        continue
+                    if sp is None or sp.w or any(w_ == "" for w_ in sp.words):
+                        continue        # empty forms (`ought`.b: the cell is "") are dropped by detokenisation: left out
                 l = form_input(lang, lemma, entry, t, pe, n, g, aux)
                 l["variant"] = var
                 lines.append(l)
